@@ -154,8 +154,9 @@ const NEED_SLEEPING: u32 = 5;
 
 impl Runner {
     /// has thread `id` (currently Running for the scheduler) arrived, or is it asleep in the implementation?
-    fn wait_arrival(&self, id: usize) -> Option<StepOutcome> {
+    fn wait_arrival(&self, id: usize, min_asleep: Duration) -> Option<StepOutcome> {
         let t0 = Instant::now();
+        let mut asleep_since: Option<Instant> = None;
         let mut asleep = 0u32;
         let mut last: Option<usize> = None;
         loop {
@@ -168,9 +169,14 @@ impl Runner {
             // mutex/condvar nor the harness' own occupancy mutex (parking_lot parks on a per-thread word)
             let a = futex_wait_addr(self.sh.tids[id].load(Ordering::SeqCst));
             let foreign = match a { Some(x) => !self.own.iter().any(|(lo, hi)| x >= *lo && x < *hi), None => false };
-            if foreign && (asleep == 0 || a == last) { asleep += 1 } else if foreign { asleep = 1 } else { asleep = 0 }
+            if foreign && (asleep == 0 || a == last) { asleep += 1 } else if foreign { asleep = 1; asleep_since = None } else { asleep = 0; asleep_since = None }
+            if asleep >= 1 && asleep_since.is_none() { asleep_since = Some(Instant::now()); }
             last = a;
-            if asleep >= NEED_SLEEPING || t0.elapsed() > Duration::from_millis(5000) {
+            // a wake-up issued by another thread may still be in flight (the sleeper shows up as
+            // sleeping until its CPU has processed the wake-up): after an unlock insist on a longer
+            // uninterrupted sleep before calling the thread blocked
+            let long_enough = asleep_since.map(|t| t.elapsed() >= min_asleep).unwrap_or(false);
+            if (asleep >= NEED_SLEEPING && long_enough) || t0.elapsed() > Duration::from_millis(5000) {
                 return match self.s.state(id) {
                     TState::AtSite(x) => Some(StepOutcome::Reached(x)),
                     TState::Finished => Some(StepOutcome::Finished),
@@ -186,7 +192,7 @@ impl Runner {
     fn step(&mut self, t: usize) -> StepObs {
         let out = if t >= self.n { StepOutcome::Skipped } else {
             match self.s.step(t) {
-                StepOutcome::Blocked => match self.wait_arrival(t) { Some(o) => o, None => { self.blocked[t] = true; StepOutcome::Blocked } },
+                StepOutcome::Blocked => match self.wait_arrival(t, Duration::from_micros(400)) { Some(o) => o, None => { self.blocked[t] = true; StepOutcome::Blocked } },
                 o => o,
             }
         };
@@ -195,7 +201,9 @@ impl Runner {
         let mut woke = vec![];
         for u in 0..self.n {
             if self.blocked[u] && !(u == t && code == 2) {
-                match self.wait_arrival(u) {
+                // only a force_unlock (always followed by site 203 in the same coarse step) releases waiters
+                let min_asleep = if code == 203 { Duration::from_millis(25) } else { Duration::from_micros(400) };
+                match self.wait_arrival(u, min_asleep) {
                     Some(StepOutcome::Reached(x)) => { self.blocked[u] = false; woke.push((u, x as i64)); }
                     Some(StepOutcome::Finished) => { self.blocked[u] = false; woke.push((u, 1)); }
                     _ => {}
@@ -279,6 +287,20 @@ fn run_case(progs: &[Vec<Op>], sched: &[usize]) -> Observed {
     if r.all_finished() { for h in hs { let _ = h.join(); } }
     Scheduler::uninstall();
     Observed { steps, fin, sched_run }
+}
+
+/// A waiter can only be released by a force_unlock, and every force_unlock is followed by hook
+/// site 203 within the same coarse step.  An observation in which a thread "woke up" during a
+/// step that did not end at 203 therefore contains a late verdict of the OS-level blocked
+/// detection (overloaded machine): such a run is discarded and the case is run again.
+fn timing_suspect(o: &Observed) -> bool { o.steps.iter().any(|s| !s.woke.is_empty() && s.out != 203) }
+fn run_case_stable(progs: &[Vec<Op>], sched: &[usize]) -> (Observed, u32) {
+    let mut reruns = 0;
+    loop {
+        let o = run_case(progs, sched);
+        if !timing_suspect(&o) || reruns >= 4 { return (o, reruns); }
+        reruns += 1;
+    }
 }
 
 fn case_term(progs: &[Vec<Op>], o: &Observed) -> String {
@@ -495,7 +517,7 @@ fn main() {
 }
 
 /// flags of one observed case, as one tab-separated result line (worker -> parent)
-fn result_line(kind: &str, progs: &[Vec<Op>], sched: &[usize], o: &Observed) -> String {
+fn result_line(kind: &str, progs: &[Vec<Op>], sched: &[usize], o: &Observed, reruns: u32) -> String {
     let mut parked = vec![false; progs.len()];
     let mut hit204 = false;
     // a thread parked at 204 while another thread moved: the window of the property's why_tests_cant
@@ -506,7 +528,7 @@ fn result_line(kind: &str, progs: &[Vec<Op>], sched: &[usize], o: &Observed) -> 
     let dead = if let Fin::Complete { blocked, .. } = &o.fin { !blocked.is_empty() } else { false };
     let flags = [
         o.steps.iter().any(|s| s.out == 2), o.steps.iter().any(|s| !s.woke.is_empty()), occ_violation(o),
-        matches!(o.fin, Fin::Trunc), hit204, dead, stale204(progs, o), preempted_inside_call(o), unjustified_block(o),
+        matches!(o.fin, Fin::Trunc), hit204, dead, stale204(progs, o), preempted_inside_call(o), unjustified_block(o), reruns > 0,
     ];
     let f: String = flags.iter().map(|b| if *b { '1' } else { '0' }).collect();
     format!("{}\t{}\t{}\t{}", kind, replay_line(progs, sched), f, case_term(progs, o))
@@ -521,8 +543,8 @@ fn worker(a: &Args) {
         let kind = it.next().unwrap_or("");
         let line = it.next().unwrap_or("");
         if let Some((progs, sched)) = parse_line(line) {
-            let o = run_case(&progs, &sched);
-            out.push_str(&result_line(kind, &progs, &sched, &o));
+            let (o, reruns) = run_case_stable(&progs, &sched);
+            out.push_str(&result_line(kind, &progs, &sched, &o, reruns));
             out.push('\n');
         }
     }
@@ -578,6 +600,8 @@ fn gen(a: &Args) {
         wr.push(r[3].clone(), r[1].clone(), f.get(7).copied().unwrap_or(false), &r[0]);
     }
     for i in 0..7 { wr.count(names[i], counts[i]); }
+    let reruns = res.iter().filter(|r| r.len() >= 4 && r[2].chars().nth(9) == Some('1')).count();
+    wr.count("obs_cases_rerun_for_late_wakeup_verdict", reruns as u64);
     let _ = std::fs::remove_dir_all(a.out.join("work"));
     wr.finish(&[("harness_run_ms".to_string(), format!("{}", t0.elapsed().as_millis())), ("worker_processes".to_string(), format!("{}", jobs()))]);
 }
